@@ -296,13 +296,17 @@ def parse_single_name_into_parts(name, strict=True):
                         controlseq = escaped.isalpha()
                         specialchar = True
 
-                    # Can we use it to determine the case?
-                    # (not within an ordinary braced expression, which is caseless)
-                    elif (case == -1) and escaped.isalpha() and (not level or specialchar):
-                        if escaped.isupper():
-                            case = 1
-                        else:
-                            case = 0
+                    else:
+                        # A backslash ends a control sequence that was being read.
+                        controlseq = False
+
+                        # Can we use it to determine the case?
+                        # (not within an ordinary braced expression, which is caseless)
+                        if (case == -1) and escaped.isalpha() and (not level or specialchar):
+                            if escaped.isupper():
+                                case = 1
+                            else:
+                                case = 0
 
                     # Copy the escape to the current word and go to the next
                     # character in the input.
@@ -319,9 +323,15 @@ def parse_single_name_into_parts(name, strict=True):
         if char == "{":
             level += 1
             word.append(char)
-            bracestart = True
-            controlseq = False
-            specialchar = False
+            if level == 1:
+                bracestart = True
+                controlseq = False
+                specialchar = False
+            else:
+                # A nested brace cannot start a special character (BibTeX only
+                # recognises `{\` at brace depth 0), and it does not end one.
+                bracestart = False
+                controlseq = False
             continue
 
         # All the below cases imply this (and don't test its previous value).
@@ -338,8 +348,10 @@ def parse_single_name_into_parts(name, strict=True):
                 word.insert(0, "{")
 
             # Update the state, append the character, and move on.
+            # (a special character lasts until its own closing brace)
             controlseq = False
-            specialchar = False
+            if not level:
+                specialchar = False
             word.append(char)
             continue
 
